@@ -923,6 +923,18 @@ func storm(w *tr.Writer, seed int64, c stormCfg) {
 		}
 		runtime.Gosched()
 		if time.Since(t0) > 60*time.Second {
+			if lb.VerifQueued() == 0 && atomic.LoadInt32(&inFn) == 0 {
+				// the flusher is idle and yet the flushed log does not hold every appended event (or the buffer never
+				// hands a past reader over to the disk): an observation, recorded as an event that nothing admits
+				diskMu.Lock()
+				n := len(tm.parseEntries(disk))
+				diskMu.Unlock()
+				w.Emit(tr.Ev{"ev": "rderr", "r": 0, "got": [][2]int{}, "msg": fmt.Sprintf("the flusher is idle but the flushed log holds %d of %d events 60 s after shutdown", n, c.events)})
+				hangs++
+				atomic.StoreInt32(&drained, 1)
+				close(done)
+				return
+			}
 			tr.Fatal("storm: flusher never finished")
 		}
 	}
